@@ -23,7 +23,8 @@ RULE = ("valid bodies (the library's own serializations of generated model insta
         "every aggregate end tag; transpose adjacent end tags; stray end tag or stray text at token boundaries; second "
         "top-level element; thorough also pairs of faults. A case = (faulted text); non-trivial = the text differs from the valid body")
 ASSUMPTIONS = ["ref_sgml.py decides well-formedness (self-tested)",
-               "an input from which the parser can extract no element at all (returns None) is recorded, not judged",
+               "an input without a single complete tag, from which the parser extracts no element at all (returns None), is recorded, not judged; with at least one complete tag, neither a tree nor an error is a violation",
+               "routes: fresh TreeBuilder; fresh OFXTree.parse; ONE long-lived OFXTree that parsed a good document before; two builders alive at once (A fed, B parses a good document, A closed)",
                "faults keep tag names inside the OFX tag alphabet (A-Z 0-9 . _)"]
 LEVEL_TEXT = ("Fault enumeration: each fault class named by the property is applied at every applicable position of thousands of "
               "valid bodies; the observed outcome (raised / returned a tree) is judged against an independent tokenizer, both through "
